@@ -19,3 +19,5 @@ def check(A):
         R.queue_unbounded_rule(A, fl, 'C07')
         R.last_ping_writers_rule(A, fl, 'C07')
         R.sweep_complete_rule(A, fl, 'C07')
+        R.idle_guard_rule(A, fl, 'C07')
+    R.monitor_default_rule(A, 'C07')
